@@ -12,7 +12,7 @@ func init() {
 			"in-package function it passes receiver-derived memory to) stores into storage reachable from its receiver: no map update on the receiver, no store through an element/field address of a slice " +
 			"obtained from it, no sort/copy/delete on it. Range copies are locals. An append whose first operand is receiver-derived is recorded but is not a violation (it cannot change what the original " +
 			"observes within its length). (R2) AddGTID's result is built in a map made in the method, and every interval slice stored into it is allocated in the method; " +
-			"(R3) structural necessary conditions of canonical form: the parser sorts each interval list before storing it and SIDs() sorts its result. " +
+			"(R3) structural necessary conditions of canonical form: the parser sorts each interval list before storing it and SIDs() sorts its result; (R4) the loops of AddGTID over the receiver's lists leave only through their range condition, so every existing interval is carried into the result. " +
 			"Not decided: canonical form of results, correctness of interval merging, Contains/Equal.",
 		Rule:        "instances = methods of Mysql56GTIDSet x write-capable instructions on receiver-derived memory (taint fixpoint over SSA, in-package callee summaries)",
 		Trusted:     append([]string{"list of standard-library functions that write through an argument (sort.*, binary.Read, hex.Decode/Encode, Reader.Read) in ownership.go"}, commonTrusted...),
@@ -32,6 +32,9 @@ func init() {
 		Variant{ID: "c18-r2-share-intervals", Prop: "C18", File: "replication/mysql56_gtid_set.go",
 			Old: "\t\t\t// Just copy everything.\n\t\t\tnewIntervals = append(newIntervals, intervals...)\n", New: "\t\t\t// Just copy everything.\n\t\t\tnewIntervals = intervals\n",
 			Expect: "C18-R2 result-storage@AddGTID"},
+		Variant{ID: "c18-r4-break-after-merge", Prop: "C18", File: "replication/mysql56_gtid_set.go",
+			Old: "\t\t\t\t\t// Merge instead of appending.\n\t\t\t\t\tnewIntervals[count-1].end = iv.end\n", New: "\t\t\t\t\t// Merge instead of appending.\n\t\t\t\t\tnewIntervals[count-1].end = iv.end\n\t\t\t\t\tbreak\n",
+			Expect: "C18-R4 copy-all@AddGTID"},
 		Variant{ID: "c18-r3-parser-unsorted", Prop: "C18", File: "replication/mysql56_gtid_set.go",
 			Old: "\t\tsort.Sort(intervalList(intervals))\n\t\tset[sid] = intervals\n", New: "\t\tset[sid] = intervals\n",
 			Expect: "C18-R3 sorted@parseMysql56GTIDSet"},
@@ -65,6 +68,69 @@ func runC18(a *A) {
 	}
 	c18R2(a)
 	c18R3(a)
+	c18R4(a)
+}
+
+// R4: AddGTID carries every interval of the receiver over: the loops that range over receiver-derived lists leave only through
+// their range condition (no break / return in the body), so no tail of a list can be dropped.
+func c18R4(a *A) {
+	const rule = "C18-R4"
+	w := a.W
+	f := w.method(w.Repl, "Mysql56GTIDSet", "AddGTID")
+	if !a.need(f != nil, rule, "Mysql56GTIDSet.AddGTID") {
+		return
+	}
+	derived := receiverDerived(f)
+	n := 0
+	for _, h := range f.Blocks {
+		if !isLoopHeader(h) {
+			continue
+		}
+		// the loop ranges over receiver-derived data: its header (or the block before it) takes len()/Next of a derived value
+		over := false
+		for _, b := range []*ssa.BasicBlock{h, h.Idom()} {
+			if b == nil {
+				continue
+			}
+			for _, in := range b.Instrs {
+				switch x := in.(type) {
+				case *ssa.Next:
+					if derived[x.Iter] {
+						over = true
+					}
+				case *ssa.Call:
+					if isBuiltin(x.Common(), "len") && derived[x.Common().Args[0]] {
+						over = true
+					}
+				}
+			}
+		}
+		if !over {
+			continue
+		}
+		n++
+		// exits of the loop: edges from a block inside the loop to a block outside; only the header may exit
+		inLoop := func(b *ssa.BasicBlock) bool { return h.Dominates(b) && (b == h || reachesAvoiding(b, h, nil, nil)) }
+		early := ""
+		for _, b := range f.Blocks {
+			if !inLoop(b) || b == h {
+				continue
+			}
+			for _, sx := range b.Succs {
+				if !inLoop(sx) {
+					early = w.posOf(lastInstr(b))
+				}
+			}
+			if _, isRet := lastInstr(b).(*ssa.Return); isRet {
+				early = w.posOf(lastInstr(b))
+			}
+		}
+		a.check(early == "", rule, fmt.Sprintf("copy-all@AddGTID[loop#%d]", n), w.posOf(h.Instrs[0]), "the loop over the receiver's data runs to completion",
+			"a loop over the receiver's intervals can be left early ("+early+"): the intervals after that point are not carried into the result, so AddGTID no longer yields the union (it can lose transactions the set already contained)")
+	}
+	if n == 0 {
+		a.undecided(rule, "copy-all@AddGTID", w.pos(f.Pos()), "no loop over receiver-derived data found in AddGTID")
+	}
 }
 
 // R2: AddGTID builds its result in fresh storage.
